@@ -24,7 +24,7 @@ STR_TAGS = (0x01, 0x0a, 0x0b, 0x0c, 0x0d, 0x0e, 0x0f)
 TUP_TAGS = (0x02, 0x10, 0x11, 0x12, 0x13, 0x14, 0x15)
 
 
-def enc(v, form="short", ext_surrogates=False):
+def enc(v, form="short", ext_surrogates=True):
     t = type(v)
     if v is None: return b"\x00"
     if v is NotImplemented: return b"\x05"
@@ -37,7 +37,8 @@ def enc(v, form="short", ext_surrogates=False):
     if t is float: return b"\x18" + struct.pack(">d", v)
     if t is complex: return b"\x1b" + struct.pack(">dd", v.real, v.imag)
     if t is bytes: return _count(len(v), form, STR_TAGS) + v
-    # published: text is UTF-8 (strict). ext_surrogates=True is the repaired tree's extension for text that UTF-8 cannot express
+    # published: text is UTF-8 (strict; pass ext_surrogates=False to insist, as C19's value phase does for the published value domain).
+    # ext_surrogates=True (default, for harnesses that build hostile or arbitrary messages) is the repaired tree's extension for text that UTF-8 cannot express
     # (lone surrogates, finding F1): such text is outside the published value domain and is never emitted by a conforming peer
     if t is str: return b"\x08" + enc(v.encode("utf-8", "surrogatepass" if ext_surrogates else "strict"), form)
     if t is tuple: return _count(len(v), form, TUP_TAGS) + b"".join(enc(x, form, ext_surrogates) for x in v)
